@@ -246,6 +246,36 @@ func buildGuard(a *ref.AP, t *sim.Tape) (p mq.Packet, ops []drv.Op, err error) {
 	return
 }
 
+// afterFailedDecode models a packet object that was last used as the receiver
+// of a decode that FAILED (a pooled object, a retry): a damaged body of its own
+// type is fed to its UnmarshalBinary. What state that leaves is the library's
+// business; read-only operations on the object afterwards must still be
+// read-only and race-free. Only for checks that compare with no model.
+func afterFailedDecode(c *sim.Ctx, p mq.Packet) bool {
+	t := c.T
+	typ := drv.TypeOf(p)
+	if typ < 1 || typ > 15 {
+		return false
+	}
+	f, fm := ref.Encode(gen.Packet(t, gen.Cfg{Spec: true, NoHuge: true, Types: []byte{typ}}))
+	other, _ := ref.Encode(gen.Packet(t, gen.Cfg{Spec: true, NoHuge: true}))
+	d, _ := gen.Damage(t, f, fm, other, false)
+	if len(d) < 2 {
+		return false
+	}
+	h := hdrLen(d)
+	if h > len(d) {
+		return false
+	}
+	body := append([]byte{}, d[h:]...)
+	failed := false
+	sim.Guard(func() { failed = p.UnmarshalBinary(body) != nil })
+	if failed {
+		c.Count("probe.packet-object-that-last-failed-to-decode")
+	}
+	return failed
+}
+
 // buildGuardZero is buildGuard on a zero-value literal (&mq.Publish{} ...).
 func buildGuardZero(a *ref.AP, t *sim.Tape) (p mq.Packet, ops []drv.Op, err error) {
 	if pi := sim.Guard(func() { p, ops, err = drv.BuildZero(a, t) }); pi != nil {
